@@ -4,7 +4,7 @@
    the record [laws] (gunzip . gzip = id, gzip output starts with 1f 8b,
    open . seal = id). *)
 From Coq Require Import List NArith Bool String.
-From SW Require Import model.UploadCodec proof.UploadCodecProofs.
+From SW Require Import model.UploadCodec proof.UploadCodecProofs proof.UploadCodecMore.
 Import ListNotations.
 Local Open Scope N_scope.
 
@@ -65,16 +65,133 @@ Theorem c33_pinned_fetch_witness : exists O u, laws O /\
 Proof. exact pinned_fetch_after_upload_panics. Qed.
 Print Assumptions c33_pinned_fetch_witness.
 
-(* non-vacuity: an oracle satisfying the laws exists, and on it a compressible
-   text, an encrypted upload and a pre-compressed upload all come back *)
+(* ---------- the other two readers of util/http_util.go ---------- *)
+(* The same round trip through ReadUrlAsStream (result and the bytes handed to fn),
+   ReadUrl (any buffer length: a prefix) and ReadUrlAsReaderCloser + ReadAll. *)
+Theorem c33_roundtrip_all_readers : forall O, laws O -> forall u clear,
+  List.length (u_nonce u) = 12%nat -> clear_of O u = Some clear ->
+  let w := fst (upload O u) in let r := snd (upload O u) in
+  let n := server_store w in
+  r_size r = len clear /\
+  (forall off size, off + size <= len clear ->
+     fetch O n (r_key r) (r_gzip r) true off size = FOk clear /\
+     fetch_handed O n (r_key r) (r_gzip r) true off size = clear /\
+     (forall buflen, read_url true O n (r_key r) (r_gzip r) true off size buflen = FOk (firstn (N.to_nat buflen) clear))) /\
+  (forall off size, 0 < size -> off + size <= len clear ->
+     fetch O n (r_key r) (r_gzip r) false off size = FOk (slice off size clear) /\
+     fetch_handed O n (r_key r) (r_gzip r) false off size = slice off size clear /\
+     (forall buflen, read_url true O n (r_key r) (r_gzip r) false off size buflen =
+                     FOk (firstn (N.to_nat buflen) (slice off size clear)))) /\
+  (u_cipher u = false ->
+     read_closer true O n None = FOk clear /\
+     forall off size, 0 < size -> off + size <= len clear ->
+       read_closer true O n (Some (off, size)) = FOk (slice off size clear)).
+Proof. exact roundtrip_all_readers. Qed.
+Print Assumptions c33_roundtrip_all_readers.
+
+(* ReadUrl and ReadUrlAsReaderCloser never panic on ANY stored needle (working tree),
+   no law assumed ... *)
+Theorem c33_read_url_no_panic : forall O n key gz full off size buflen,
+  read_url true O n key gz full off size buflen <> FPanic.
+Proof. exact read_url_no_panic. Qed.
+Print Assumptions c33_read_url_no_panic.
+
+Theorem c33_read_closer_no_panic : forall O n rng, read_closer true O n rng <> FPanic.
+Proof. exact read_closer_no_panic. Qed.
+Print Assumptions c33_read_closer_no_panic.
+
+(* ... and the pinned code panicked in both exactly where ReadUrlAsStream did. *)
+Theorem c33_pinned_read_url_panic_iff : forall O n key gz full off size buflen,
+  read_url false O n key gz full off size buflen = FPanic <-> pinned_fetch_panic O n key full = true.
+Proof. exact pinned_read_url_panic_iff. Qed.
+Print Assumptions c33_pinned_read_url_panic_iff.
+
+Theorem c33_pinned_read_closer_panic_iff : forall O n rng,
+  read_closer false O n rng = FPanic <->
+  pinned_fetch_panic O n None (match rng with None => true | Some _ => false end) = true.
+Proof. exact pinned_read_closer_panic_iff. Qed.
+Print Assumptions c33_pinned_read_closer_panic_iff.
+
+(* ---------- known finding 0: isInputCompressed on data that is not gzip ---------- *)
+(* "any content ... is fetched back" fails on the faithful model: with
+   isInputCompressed set and data that starts with 1f 8b but is no gzip stream,
+   doUploadData drops the DecompressData error and uploads anyway.  Not encrypted:
+   no full fetch ever succeeds and a ranged read silently returns nothing.
+   Encrypted: the result says 5 bytes, the sealed plaintext is empty. *)
+Theorem c33_any_content_refuted : exists O, laws O /\
+  (exists u, List.length (u_nonce u) = 12%nat /\ u_cipher u = false /\ ~ any_content_ok O u /\
+     fetch O (server_store (fst (upload O u))) None true false 0 5 = FOk []) /\
+  (exists u, List.length (u_nonce u) = 12%nat /\ u_cipher u = true /\ ~ any_content_ok O u /\
+     r_size (snd (upload O u)) = 5 /\
+     decrypt O (u_key u) (w_body (fst (upload O u))) = Some []).
+Proof. exact any_content_refuted. Qed.
+Print Assumptions c33_any_content_refuted.
+
+(* Outside the (decidable) trigger the full statement holds for EVERY input: the bytes
+   that come back are the data, or its gunzip when the caller said it is compressed. *)
+Theorem c33_roundtrip_partial : forall O, laws O -> forall u,
+  List.length (u_nonce u) = 12%nat -> false_gzip_promise O u = false ->
+  exists clear,
+    (clear = u_data u \/ (u_ic u = true /\ o_gunzip O (u_data u) = GzOk clear)) /\
+    let w := fst (upload O u) in let r := snd (upload O u) in
+    r_size r = len clear /\
+    (forall off size, off + size <= len clear ->
+       fetch O (server_store w) (r_key r) (r_gzip r) true off size = FOk clear) /\
+    (forall off size, 0 < size -> off + size <= len clear ->
+       fetch O (server_store w) (r_key r) (r_gzip r) false off size = FOk (slice off size clear)).
+Proof. exact roundtrip_partial. Qed.
+Print Assumptions c33_roundtrip_partial.
+
+(* the trigger is exactly the complement of c33_roundtrip's hypothesis *)
+Theorem c33_trigger_exact : forall O u, clear_of O u = None <-> false_gzip_promise O u = true.
+Proof. exact clear_of_none_iff. Qed.
+Print Assumptions c33_trigger_exact.
+
+(* Inside the trigger the behaviour is fully determined (so nothing else can hide
+   there).  Not encrypted: the junk is stored as is and flagged compressed, every full
+   fetch is an error, a ranged fetch serves the server's partial decompression. *)
+Theorem c33_false_promise_plain : forall O u,
+  false_gzip_promise O u = true -> u_cipher u = false ->
+  let w := fst (upload O u) in let r := snd (upload O u) in
+  w_body w = u_data u /\ w_ce_gzip w = true /\ r_gzip r = true /\ r_key r = None /\ r_size r = len (u_data u) /\
+  (forall gz off size, fetch O (server_store w) None gz true off size = FErr) /\
+  read_closer true O (server_store w) None = FErr /\
+  (forall gz off size, fetch O (server_store w) None gz false off size =
+     let body := gunzip_partial O (u_data u) in
+     if (size =? 0) || (len body <? off) then FErr
+     else FOk (slice off (N.min (off + size) (len body) - off) body)).
+Proof. exact false_promise_plain. Qed.
+Print Assumptions c33_false_promise_plain.
+
+(* Encrypted: what is sealed is DecompressData's partial output, the recorded size is
+   the input length. *)
+Theorem c33_false_promise_cipher : forall O, laws O -> forall u,
+  false_gzip_promise O u = true -> u_cipher u = true -> List.length (u_nonce u) = 12%nat ->
+  let w := fst (upload O u) in let r := snd (upload O u) in
+  let p := gunzip_partial O (u_data u) in
+  w_body w = encrypt O (u_key u) (u_nonce u) p /\ r_size r = len (u_data u) /\ r_gzip r = false /\
+  forall full off size,
+    fetch O (server_store w) (r_key r) (r_gzip r) full off size =
+    if len p <? off + size then FErr else if full then FOk p else FOk (slice off size p).
+Proof. exact false_promise_cipher. Qed.
+Print Assumptions c33_false_promise_cipher.
+
+(* non-vacuity: an oracle satisfying the laws exists; on it a compressible text
+   (through all three readers), an encrypted upload and a pre-compressed upload
+   (hypotheses of c33_roundtrip / c33_roundtrip_partial hold) come back, and the two
+   witnesses are inside the trigger *)
 Example c33_example :
   laws toy /\
-  (let u := {| u_name := "a.txt"%string; u_cipher := false; u_data := [104; 105; 32; 104; 105]; u_ic := false;
-               u_mime := ""%string; u_key := []; u_nonce := [] |} in
-   r_gzip (snd (upload toy u)) = true /\
-   fetch toy (server_store (fst (upload toy u))) None true true 0 5 = FOk [104; 105; 32; 104; 105] /\
-   fetch toy (server_store (fst (upload toy u))) None true false 1 3 = FOk [105; 32; 104]) /\
-  (let u := {| u_name := "x"%string; u_cipher := true; u_data := [31; 139; 1; 2]; u_ic := false;
-               u_mime := ""%string; u_key := [9]; u_nonce := [1; 2; 3; 4; 5; 6; 7; 8; 9; 10; 11; 12] |} in
-   fetch toy (server_store (fst (upload toy u))) (r_key (snd (upload toy u))) (r_gzip (snd (upload toy u))) false 1 2 = FOk [139; 1]).
-Proof. split; [exact toy_laws | vm_compute; repeat split; reflexivity]. Qed.
+  (r_gzip (snd (upload toy ex_text)) = true /\
+   fetch toy (server_store (fst (upload toy ex_text))) None true true 0 5 = FOk [104; 105; 32; 104; 105] /\
+   fetch toy (server_store (fst (upload toy ex_text))) None true false 1 3 = FOk [105; 32; 104] /\
+   read_url true toy (server_store (fst (upload toy ex_text))) None true true 0 5 2 = FOk [104; 105] /\
+   read_closer true toy (server_store (fst (upload toy ex_text))) (Some (1, 3)) = FOk [105; 32; 104]) /\
+  fetch toy (server_store (fst (upload toy ex_cipher))) (r_key (snd (upload toy ex_cipher)))
+        (r_gzip (snd (upload toy ex_cipher))) false 1 2 = FOk [139; 1] /\
+  (false_gzip_promise toy ex_pregz = false /\ clear_of toy ex_pregz = Some [65; 66; 67] /\
+   List.length (u_nonce ex_pregz) = 12%nat /\
+   fetch toy (server_store (fst (upload toy ex_pregz))) None true true 0 3 = FOk [65; 66; 67]) /\
+  (false_gzip_promise toy junk_upload = true /\ false_gzip_promise toy junk_cipher_upload = true).
+Proof. exact example_holds. Qed.
+Print Assumptions c33_example.
